@@ -49,6 +49,8 @@ const (
 	KEnum  // string-valued Go type with a hand-written tag codec (modelled as a TSum of empty structs)
 	KVoid  // constructor of a union whose payload has no model: never generated, never claimed (listed)
 	KCellSlice // tlb.VmCellSlice: ^Cell st_bits:(## 10) end_bits:(## 10) st_ref:(#<= 4) end_ref:(#<= 4)
+	KSnake    // tlb.SnakeData / Bytes / Text: rest of the cell continued in a chain of references (extension layer)
+	KLenBytes // tlb.FixedLengthText: W-bit byte count, then the bytes (extension layer)
 	KDictE // tlb.HashmapE[K,V]: Maybe ^(Hashmap n V); the dictionary body is property C05 (opaque cell here)
 )
 
@@ -72,6 +74,8 @@ type Desc struct {
 	Fields []int        // struct: Go field indices of Sub
 	Grams  bool         // KVarUInt backed by uint64 (tlb.Grams)
 	DK, DV *Desc        // KDictE: descriptors of the key and value types (used to generate dictionaries)
+	Snake  string       // KSnake: "bits" (SnakeData), "bytes" (Bytes), "text" (Text, TextComment)
+	Signed bool         // KStruct [bool; varuint 16] standing for tlb.SignedCoins (an int64)
 	InRef  bool         // KCellRef held in a tlb.Ref[boc.Cell] (field Value)
 	GoW    int          // KInt: width of the Go integer holding the value when narrower than W (domain)
 }
@@ -635,6 +639,14 @@ func (d *Desc) Rand(r *prng.R, dst reflect.Value, depth int) sx.V {
 		dst.Set(p)
 		return v
 	}
+	if d.Signed {
+		return randSignedCoins(r, dst)
+	}
+	if d.T == textCommentT {
+		s := randText(r)
+		dst.SetString(s)
+		return tag("struct", sx.A("unit"), tag("bits", sx.Bits(bytesBits([]byte(s)))))
+	}
 	switch d.K {
 	case KUint:
 		v := randUnsigned(r, d.W)
@@ -650,6 +662,10 @@ func (d *Desc) Rand(r *prng.R, dst reflect.Value, depth int) sx.V {
 		return tag("z", sx.BigZ(v))
 	case KAddr:
 		return randAddr(r, dst)
+	case KSnake:
+		return d.randSnake(r, dst)
+	case KLenBytes:
+		return d.randLenBytes(r, dst)
 	case KCellSlice:
 		return randCellSlice(r, dst)
 	case KEnum:
@@ -792,7 +808,17 @@ func (d *Desc) Render(v reflect.Value) sx.V {
 		cp.T = d.T.Elem()
 		return cp.Render(v.Elem())
 	}
+	if d.Signed {
+		return renderSigned(v)
+	}
+	if d.T == textCommentT {
+		return tag("struct", sx.A("unit"), tag("bits", sx.Bits(bytesBits([]byte(v.String())))))
+	}
 	switch d.K {
+	case KSnake:
+		return d.renderSnake(v)
+	case KLenBytes:
+		return tag("bits", sx.Bits(bytesBits([]byte(v.String()))))
 	case KAddr:
 		return renderAddr(v)
 	case KCellSlice:
